@@ -1976,6 +1976,12 @@ func (r *vRunner) runHistory(h int, label string, noVerify bool, pairs []*vPair,
 		}
 		before := n.dbDigest()
 		notified := n.notified
+		// independent signature check in the state the ambassador sees BEFORE it processes the pair (afterwards the
+		// versions of the DID may have been re-derived and the prevs can select another version)
+		sigByKidKey := true
+		if (!noVerify || p.Delayed) && p.tx.SigningKey() == nil {
+			sigByKidKey = n.signedByKidKey(p)
+		}
 		var class string
 		cbOnly := noVerify || p.Delayed
 		if p.Delayed {
@@ -2005,7 +2011,7 @@ func (r *vRunner) runHistory(h int, label string, noVerify bool, pairs []*vPair,
 		if (n.notified > notified) != (class == "ok") {
 			note = " NOTIFY-MISMATCH"
 		}
-		if verified && class == "ok" && p.tx.SigningKey() == nil && !n.signedByKidKey(p) {
+		if verified && class == "ok" && p.tx.SigningKey() == nil && !sigByKidKey {
 			note += " SIG-NOT-BY-KID-KEY"
 		}
 		if expect != nil && i < len(expect) && expect[i] != class {
